@@ -29,7 +29,7 @@ ASSUMPTIONS = [
 EXHAUSTIVE_NOTE = "all 1-cut, 2-cut and byte-at-a-time segmentations of the 26 catalogue streams"
 BUDGET = {
     "quick": {"examples": 1200, "shards": 4},
-    "thorough": {"examples": 15000, "shards": 16},
+    "thorough": {"examples": 15000, "shards": 16, "fuzz": {"procs": 4, "runs": 40000}},
 }
 FLOORS = {"cut_inside_varint": 0.10, "multi_frame_chunk": 0.20, "non_bytes_chunk": 0.30, "payload_ge_16384": 0.02}
 
